@@ -233,6 +233,13 @@ func (h *ByzHost) emit(s net.Conn, idx int, msg proto4.Object, mutate func(kind 
 		case "close":
 			h.record(idx, honest, nil, nil, true)
 			return errStop
+		case "stall":
+			// neither an answer nor an end of stream: the host just sits there
+			// until the renter gives up and closes
+			h.record(idx, honest, nil, nil, true)
+			s.SetDeadline(time.Now().Add(60 * time.Second))
+			io.Copy(io.Discard, s)
+			return errStop
 		case "trunc-bytes":
 			// the host sends only a prefix of the encoded message and hangs up
 			cut := pmod(h.M.A, len(honest))
@@ -1661,7 +1668,7 @@ func cat(lists ...[]string) []string {
 }
 
 // Generic families valid for every typed message.
-var genericKinds = append([]string{"rpc-error", "close", "trunc-bytes"}, GenericKinds...)
+var genericKinds = append([]string{"rpc-error", "close", "trunc-bytes", "stall"}, GenericKinds...)
 
 // Kinds lists, per client function and per host->renter message, the
 // mutation families the ByzHost knows.
